@@ -1,3 +1,16 @@
 #!/bin/sh
-# the repository's pinned suite (command from /root/.vp/BASELINE.json), guard off
-cd /repo && /venv/bin/python -m pytest -ra -q -p no:cacheprovider --timeout=900 --continue-on-collection-errors "$@"
+# the repository's pinned suite (command from /root/.vp/BASELINE.json), guard off -- preceded by a byte-compile and import of
+# every module (the suite does not import e.g. ReactionQueryRead, so a syntax error there would go unnoticed)
+cd /repo || exit 1
+/venv/bin/python - <<'PY' || { echo "IMPORT/COMPILE FAILURE"; exit 1; }
+import compileall, sys, importlib, io, contextlib
+ok = compileall.compile_dir('pgradd', quiet=2, force=True)
+if not ok: sys.exit(1)
+import pkgutil, pgradd
+with contextlib.redirect_stdout(io.StringIO()):
+    for m in pkgutil.walk_packages(pgradd.__path__, 'pgradd.'):
+        if '.tests' in m.name or m.name.endswith('DrawMol'): continue
+        importlib.import_module(m.name)
+PY
+find /repo/pgradd -name __pycache__ -type d -prune -exec rm -rf {} + 2>/dev/null
+/venv/bin/python -m pytest -ra -q -p no:cacheprovider --timeout=900 --continue-on-collection-errors "$@"
